@@ -176,12 +176,18 @@ def shard(ctx):
 
 
 def cli_case(ctx, rng):
-    """Real binary: documented -d spellings."""
+    """Real binary: documented -d spellings; a defined value means the integer its literal denotes (a sign makes it an
+    unsized number, exactly as the same text would in the source), so `#d8 V` accepts it iff -128 <= V <= 255."""
     src = "V = 1\nW = 2\n.n = 3\nF = false\n#if F\n{\n#d8 0xaa\n}\n#else\n{\n#d8 0xbb\n}\n#d8 V, W, W.n\n"
-    v, w, nn = rng.randint(0, 200), rng.randint(0, 200), rng.randint(0, 200)
+    v = rng.choice([rng.randint(0, 200), rng.randint(-300, 300), rng.choice([-129, -128, -127, -1, 255, 256, -255, -256, 127, 128])])
+    w, nn = rng.randint(0, 200), rng.randint(0, 200)
     f = rng.random() < 0.5
+    style = rng.choice(["dec", "hex", "bin", "hex0"])
+    mag = abs(v)
+    vtxt = ("-" if v < 0 else "") + (str(mag) if style == "dec" else "0x%x" % mag if style == "hex" else "0b" + bin(mag)[2:] if style == "bin"
+                                     else "0x0%x" % mag)
     argv = ["main.asm", "-f", "hexstr", "-p", "-q",
-            rng.choice(["-dV=%d", "--define=V=%d"]) % v,
+            rng.choice(["-dV=%s", "--define=V=%s"]) % vtxt,
             rng.choice(["-dW=0x%x", "--define=W=0x%x"]) % w,
             "-dW.n=%d" % nn]
     if f:
@@ -189,20 +195,34 @@ def cli_case(ctx, rng):
     res = runner.run_cli(ctx.cli("rel"), argv, {"main.asm": src}, cpu_s=10)
     ctx.evaluated()
     ctx.monitor("cli-define-spellings")
-    want = ("aa" if f else "bb") + "%02x%02x%02x" % (v, w, nn)
-    got = res["stdout"].strip()
-    if res["status"] != 0 or got != want:
-        ctx.violation("cli-defines", {"kind": "define-spelling-not-honoured"}, {"mode": "process", "argv": ["customasm"] + argv, "files": [["main.asm", src]]},
-                      {"stdout": want}, {"status": res["status"], "stdout": got, "stderr": res["stderr"][:200]})
+    # a non-negative hex/binary literal keeps its digit width as its size: `#d8` then accepts it iff that width is <= 8
+    if v >= 0 and style in ("hex", "bin", "hex0"):
+        width = (len(vtxt) - 2) * (4 if style != "bin" else 1)
+        fits = width <= 8
     else:
-        ctx.count("cli-ok")
+        fits = -128 <= v <= 255
+    job = {"mode": "process", "argv": ["customasm"] + argv, "files": [["main.asm", src]]}
+    if fits:
+        want = ("aa" if f else "bb") + "%02x%02x%02x" % (v & 0xff, w, nn)
+        got = res["stdout"].strip()
+        if res["status"] != 0 or got != want:
+            ctx.violation("cli-defines", {"kind": "define-spelling-not-honoured"}, job,
+                          {"stdout": want}, {"status": res["status"], "stdout": got, "stderr": res["stderr"][:200]})
+        else:
+            ctx.count("cli-ok")
+    else:
+        if res["status"] == 0:
+            ctx.violation("cli-defines", {"kind": "defined-value-cut-to-fit", "negative": v < 0, "spelling": style}, job,
+                          {"stdout": "", "status": 1}, {"status": res["status"], "stdout": res["stdout"].strip()[:40]})
+        else:
+            ctx.count("cli-rejected-as-expected")
 
 
 def replay(ctx, v):
     job = v["job"]
     if job.get("mode") == "process":
         res = runner.run_cli(ctx.cli("rel"), job["argv"][1:], {f[0]: f[1] for f in job["files"]}, cpu_s=10)
-        if res["stdout"].strip() != v["expected"]["stdout"]:
+        if res["stdout"].strip() != v["expected"]["stdout"] or ("status" in v["expected"] and res["status"] != v["expected"]["status"]):
             ctx.violation(v["oracle"], v["sig"], job, v["expected"], res["stdout"])
         return
     worker = ctx.worker("rel")
